@@ -311,8 +311,8 @@ func (s *KevoServiceServer) TxGet(ctx context.Context, req *pb.TxGetRequest) (*p
 	}
 
 	if len(req.Key) == 0 || len(req.Key) > s.maxKeySize {
-		// For invalid inputs, consider automatically releasing the transaction
-		s.txRegistry.Remove(req.TransactionId)
+		// A rejected request has no side effects: the transaction stays
+		// registered (removing it here without a rollback leaked its lock).
 		return nil, fmt.Errorf("invalid key size")
 	}
 
